@@ -4,7 +4,7 @@ Pipeline: (1) Coq theorems over the Gallina model (coq/C10), (2) correspondence:
 (vm_compute) on the same generated record streams, (3) an independent definitional oracle (exact rationals, groups keyed
 by the TUPLE of group-by texts) evaluated on mlr's own output: the failing-input search.
 """
-import json, re
+import json, os, re
 from fractions import Fraction
 from vlib import *
 
@@ -96,7 +96,7 @@ ACC_COQ = {"count": "ACount", "null_count": "ANullCount", "distinct_count": "ADi
 def acc_p(name):
     if name == "median":
         return Fraction(50)
-    if re.fullmatch(r"p\d+(\.\d+)?", name):
+    if re.fullmatch(r"p-?\d+(\.\d+)?", name):
         return Fraction(name[1:])
     return None
 
@@ -108,6 +108,29 @@ def coq_accname(name):
 
 def coq_acc(name):
     return f"({coq_accname(name)}, {coq_bytes(name) if acc_p(name) is not None else '[]'})"
+
+
+def stepper_parts(name):
+    """('delta', 3) for delta_3; ('shift_lag', 1) for shift"""
+    for base, canon in (("shift_lead", "shift_lead"), ("shift_lag", "shift_lag"), ("shift", "shift_lag"), ("delta", "delta"), ("ratio", "ratio")):
+        if name == base:
+            return canon, 1
+        m = re.fullmatch(base + r"_(\d+)", name)
+        if m:
+            return canon, int(m.group(1))
+    return name, 0
+
+
+def coq_stepper(name, s):
+    base, n = stepper_parts(name)
+    c = {"delta": "SDelta", "ratio": "SRatio", "shift_lag": "SShiftLag", "shift_lead": "SShiftLead"}
+    if base in c:
+        return f"({c[base]} {n}%nat, {coq_bytes(name)})"
+    if base == "ewma":
+        al = coq_list([f"({coq_q(Fraction(a))}, {coq_bytes(sfx)})" for a, sfx in zip(s["alphas"], s.get("suffixes") or s["alphas"])])
+        return f"(SEwma {al}, {coq_bytes(name)})"
+    simple = {"counter": "SCounter", "rsum": "SRsum", "rprod": "SRprod", "from-first": "SFromFirst"}[base]
+    return f"({simple}, {coq_bytes(name.replace('-', '_'))})"          # the output field of from-first is <field>_from_first
 
 
 def coq_names(l):
@@ -134,6 +157,22 @@ def coq_spec(s):
         return f"(SCountSimilar {coq_names(s['gs'])} {coq_bytes(s['out'])})"
     if k == "dsl":
         return f"(SAcc {coq_bool(s['interp'])} {coq_accname(s['acc'])} {coq_names(s['xs'])})"
+    if k == "fraction":
+        return f"(SFraction {coq_names(s['fs'])} {coq_names(s['gs'])} {coq_bool(s['p'])} {coq_bool(s['c'])})"
+    if k == "step":
+        return f"(SStep {coq_list([coq_stepper(a, s) for a in s['steppers']])} {coq_names(s['fs'])} {coq_names(s['gs'])})"
+    if k == "merge-fields":
+        mode = {"f": "MFNames", "r": "MFSubs", "c": "MFCollapse"}[s["mode"]]
+        return (f"(SMergeFields {coq_bool(s['interp'])} {coq_bool(s['k'])} {coq_list([coq_acc(a) for a in s['accs']])} "
+                f"({mode} {coq_names(s['names'])}) {coq_bytes(s['o'])})")
+    if k == "histogram":
+        return f"(SHistogram {coq_q(s['lo'])} {coq_q(s['hi'])} {s['nbins']} {coq_bytes(s['o'])} {coq_names(s['fs'])})"
+    if k == "top":
+        return f"(STop {s['n']}%nat {coq_bool(not s['min'])} {coq_bytes(s['out'])} {coq_names(s['fs'])} {coq_names(s['gs'])})"
+    if k in ("most-frequent", "least-frequent"):
+        return f"(SFrequent {coq_bool(k == 'most-frequent')} {s['maxn']}%nat {coq_bool(not s['b'])} {coq_bytes(s['out'])} {coq_names(s['gs'])})"
+    if k == "fill-down":
+        return f"(SFillDown {coq_bool(s['all'])} {coq_bool(s['only_if_absent'])} {coq_names(s['fs'])})"
     if k == "stats1":
         accs = coq_list([coq_acc(a) for a in s["accs"]])
         if s.get("w"):
@@ -157,6 +196,19 @@ def mlr_args(s):
         return ["count-distinct", "-u", "-f", ",".join(s["gs"])]
     if k == "count-similar":
         return ["count-similar", "-g", ",".join(s["gs"])] + (["-o", s["out"]] if s["out"] != "count" else [])
+    if k == "step":
+        a = ["step", "-a", ",".join(s["steppers"]), "-f", ",".join(s["fs"])] + (["-g", ",".join(s["gs"])] if s["gs"] else [])
+        if "ewma" in s["steppers"]:
+            a += ["-d", ",".join(s["alphas"])] + (["-o", ",".join(s["suffixes"])] if s.get("suffixes") else [])
+        return a
+    if k == "merge-fields":
+        return (["merge-fields", "-a", ",".join(s["accs"]), "-" + s["mode"], ",".join(s["names"])] + (["-o", s["o"]] if s["mode"] != "c" else [])
+                + (["-k"] if s["k"] else []) + (["-i"] if s["interp"] else []))
+    if k == "histogram":
+        def ftxt(q):
+            return str(q.numerator) if q.denominator == 1 else str(float(q))
+        return (["histogram", "-f", ",".join(s["fs"]), "--lo", ftxt(s["lo"]), "--hi", ftxt(s["hi"]), "--nbins", str(s["nbins"])]
+                + (["-o", s["o"]] if s["o"] else []))
     if k == "fill-down":
         return ["fill-down"] + (["--all"] if s["all"] else ["-f", ",".join(s["fs"])]) + (["-a"] if s["only_if_absent"] else [])
     if k in ("most-frequent", "least-frequent"):
@@ -286,9 +338,9 @@ def expect_acc(name, vals, interp):
             idx = int(p * N / 100)           # floor for p >= 0
             idx = min(max(idx, 0), N - 1)
             return ("val", sv[idx])
-        f = p / 100 * (N - 1)
+        f = max(Fraction(0), p / 100 * (N - 1))      # clamped below at 0 ...
         i = int(f)
-        if i >= N - 1:
+        if i >= N - 1:                                # ... and above at the last element
             return ("val", sv[N - 1])
         a, b = numq(sv[i]), numq(sv[i + 1])
         if a is None or b is None:
@@ -430,6 +482,140 @@ def oracle(s, recs, rows):
                     vals = vals if s["min"] else vals[::-1]
                     e.append((f + "_top", ("val", vals[i]) if i < len(vals) else ("void",)))
                 exp.append(e)
+    elif k == "step":
+        steppers = [(a,) + stepper_parts(a) for a in s["steppers"]]
+        lead = max([n for _, b, n in steppers if b == "shift_lead"] + [0])
+        members, where = {}, []
+        for r in recs:
+            d = dict(r)
+            if all(g in d for g in s["gs"]):
+                key = tuple(d[g] for g in s["gs"])
+                members.setdefault(key, []).append(r)
+                where.append((key, len(members[key]) - 1))
+            else:
+                where.append(None)
+
+        def arith(op, a, b):
+            qa, qb = numq(a), numq(b)
+            ints = classify(a)[0] == "int" and classify(b)[0] == "int"
+            if op == "-":
+                q = qa - qb
+                return ("int", int(q)) if ints and I64[0] <= q <= I64[1] else ("flt", q)
+            if qb == 0:
+                return ("nan",)
+            q = qa / qb
+            return ("int", int(q)) if ints and q.denominator == 1 else ("flt", q)
+
+        exps = []
+        for idx, r in enumerate(recs):
+            e = [(kk, ("text", vv)) for kk, vv in r]
+            if where[idx] is None:
+                exps.append((idx, idx, e))
+                continue
+            key, j = where[idx]
+            grp = members[key]
+            for f in s["fs"]:
+                d = dict(r)
+                if f not in d:
+                    continue
+                v = d[f]
+                ev = [dict(x).get(f) for x in grp]
+                nz = [x for x in ev[:j + 1] if x not in (None, "")]
+                for name, base, n in steppers:
+                    val = None
+                    if base in ("counter", "rsum", "rprod"):
+                        if v == "":
+                            val = ("text", "")
+                        elif base == "counter":
+                            val = ("int", len(nz))
+                        else:
+                            qs = [numq(x) for x in nz]
+                            tot = Fraction(0) if base == "rsum" else Fraction(1)
+                            for q in qs:
+                                tot = tot + q if base == "rsum" else tot * q
+                            allint = all(classify(x)[0] == "int" for x in nz)
+                            val = ("int", int(tot)) if allint and abs(tot) < 2 ** 62 else ("flt", tot)
+                    elif base == "from-first":
+                        i0 = next(i for i, x in enumerate(ev) if x is not None)
+                        val = ("int", 0) if i0 == j else arith("-", v, ev[i0])
+                    elif base in ("delta", "ratio"):
+                        if v == "":
+                            val = ("text", "")
+                        else:
+                            prev = ev[j - n] if j - n >= 0 else None
+                            if prev in (None, ""):
+                                val = ("int", 0 if base == "delta" else 1)
+                            else:
+                                val = arith("-" if base == "delta" else "/", v, prev)
+                    elif base == "shift_lag":
+                        prev = ev[j - n] if j - n >= 0 else None
+                        val = ("text", prev if prev is not None else "")
+                    elif base == "shift_lead":
+                        if j + n < len(grp):
+                            nx = ev[j + n]
+                            val = ("text", nx) if nx is not None else None
+                        else:
+                            val = ("text", "")
+                    elif base == "ewma":
+                        xs = [numq(x) for x in ev[:j + 1] if x is not None]
+                        for a, sfx in zip(s["alphas"], s.get("suffixes") or s["alphas"]):
+                            al = Fraction(a)
+                            cur = xs[0]
+                            for x in xs[1:]:
+                                cur = al * x + (1 - al) * cur
+                            e.append((f + "_ewma_" + sfx, ("val", v) if len(xs) == 1 else ("flt", cur)))
+                        continue
+                    if val is not None:
+                        e.append((f + "_" + name.replace("-", "_"), val))
+            # emitted when the group's record `lead` places later arrives, else at end of stream in arrival order
+            later = [i for i, w in enumerate(where) if w is not None and w[0] == key and w[1] == j + lead]
+            exps.append((later[0] if later else len(recs), idx, e))
+        exp = [e for _, _, e in sorted(exps, key=lambda t: (t[0], t[1]))]
+    elif k == "merge-fields":
+        for r in recs:
+            e = [(kk, ("text", vv)) for kk, vv in r]
+            groups, consumed = {}, []
+            if s["mode"] == "f":
+                groups[s["o"]] = []
+                for f in s["names"]:
+                    if f in dict(r):
+                        consumed.append(f)
+                        groups[s["o"]].append(dict(r)[f])
+            else:
+                if s["mode"] == "r":
+                    groups[s["o"]] = []
+                for kk, vv in r:
+                    hit = next((sub for sub in s["names"] if sub in kk), None)
+                    if hit is None:
+                        continue
+                    consumed.append(kk)
+                    groups.setdefault(s["o"] if s["mode"] == "r" else kk.replace(hit, "", 1), []).append(vv)
+            if not s["k"]:
+                e = [(kk, vv) for kk, vv in e if kk not in consumed]
+            for base, vals in groups.items():
+                for a in s["accs"]:
+                    name, val = base + "_" + a, expect_acc(a, [v for v in vals if v != ""], s["interp"])
+                    pos = [i for i, (kk, _) in enumerate(e) if kk == name]
+                    if pos:
+                        e[pos[0]] = (name, val)
+                    else:
+                        e.append((name, val))
+            exp.append(e)
+    elif k == "histogram":
+        lo, hi, nb = s["lo"], s["hi"], s["nbins"]
+        counts = {f: [0] * nb for f in s["fs"]}
+        for r in recs:
+            d = dict(r)
+            for f in s["fs"]:
+                if f in d:
+                    v = numq(d[f])
+                    if lo <= v < hi:
+                        counts[f][int((v - lo) * nb / (hi - lo))] += 1
+                    elif v == hi:
+                        counts[f][nb - 1] += 1
+        for i in range(nb):
+            exp.append([(s["o"] + "bin_lo", ("flt", lo + Fraction(i) * (hi - lo) / nb)), (s["o"] + "bin_hi", ("flt", lo + Fraction(i + 1) * (hi - lo) / nb))]
+                       + [(s["o"] + f + "_count", ("int", counts[f][i])) for f in s["fs"]])
     elif k == "stats1":
         def stats_fields(members):
             out = []
@@ -524,6 +710,14 @@ def gen_value(rng, profile):
         if r < 0.92:
             return ""
         return str(rng.randint(-1000, 1000))
+    if profile == "stepnums":
+        if r < 0.45:
+            return str(rng.randint(-6, 12))
+        if r < 0.8:
+            return "%s%d.%s" % (rng.choice(["", "-"]), rng.randint(0, 12), rng.choice(["5", "25", "75", "125"]))
+        if r < 0.9:
+            return ""
+        return "0"
     if profile == "pos":
         return str(rng.randint(1, 40)) if r < 0.5 else "%d.%s" % (rng.randint(0, 40), rng.choice(["5", "25", "75", "125", "50"]))
     if profile == "nums":
@@ -563,13 +757,14 @@ def gen_records(rng, profile, nrec, gvals):
     return recs
 
 
+MFKEYS = ["a_in_x", "a_out_x", "b_in_y", "b_out_y", "x", "y", "z"]
 MOMENT = ["var", "stddev", "meaneb", "skewness", "kurtosis", "mad"]
 PLAIN = ["count", "sum", "min", "max", "mode", "antimode", "distinct_count", "null_count", "minlen", "maxlen", "mean"]
 
 
 def gen_case(rng, tier):
     kind = rng.choice(["stats1", "stats1", "stats1", "stats1", "stats1p", "stats1p", "stats1w", "count", "uniq", "count-distinct-u", "count-similar",
-                       "fill-down", "frequent", "fraction", "top"])
+                       "fill-down", "frequent", "fraction", "top", "step", "step", "step", "merge-fields", "merge-fields", "histogram"])
     nrec = rng.choice([0, 1, 2, 3, 5, 8, 12, 20] if tier == "quick" else [0, 1, 2, 3, 5, 8, 12, 20, 40])
     gvals = rng.choice([["pan", "wye"], ["pan", "wye", "zee", ""], ["1", "1.0", "01", "pan"], ["p"], ["pan", "wye", "zee", "sky", "elk", "fox"],
                         ["x,y", "x", "y", "y,z", "z"]])
@@ -596,6 +791,37 @@ def gen_case(rng, tier):
         s = {"verb": "stats1", "accs": accs, "fs": fs, "gs": gs, "interp": interp, "profile": profile}
         if kind == "stats1w":
             s["w"] = rng.choice([1, 2, 3, 5])
+    elif kind == "step":
+        simple = ["counter", "rsum", "rprod", "delta", "ratio", "shift", "shift_lag", "delta_2", "ratio_2", "shift_lag_2", "shift_3", "from-first"]
+        st = rng.sample(simple, rng.randint(1, 3))
+        s = {"verb": "step", "fs": rng.sample(VKEYS, rng.randint(1, 2)), "gs": gs, "profile": "stepnums"}
+        r = rng.random()
+        if r < 0.3:
+            st = rng.sample(st + ["shift_lead", "shift_lead_2", "shift_lead_3"], rng.randint(1, 3))
+            if not any(x.startswith("shift_lead") for x in st):
+                st.append(rng.choice(["shift_lead", "shift_lead_2"]))
+        elif r < 0.45:
+            st = list(dict.fromkeys(st[:1] + ["ewma"]))
+            s["alphas"] = rng.choice([["0.5"], ["0.1", "0.9"], ["0.25", "0.75", "1"]])
+            if rng.random() < 0.4:
+                s["suffixes"] = ["s%d" % i for i in range(len(s["alphas"]))]
+        s["steppers"] = st
+        if "from-first" in st or "ewma" in st:
+            s["profile"] = "nums"
+    elif kind == "merge-fields":
+        mode = rng.choice(["f", "r", "c"])
+        prof = rng.choice(["small", "small", "ints", "text"])
+        pool = {"small": PLAIN + MOMENT, "ints": PLAIN, "text": ["count", "mode", "antimode", "distinct_count", "null_count", "minlen", "maxlen", "min", "max", "sum"]}[prof]
+        accs = rng.sample(pool, rng.randint(1, 4))
+        if rng.random() < 0.25 and prof != "text":
+            accs = list(dict.fromkeys(accs + [rng.choice(["median", "p25", "p90"])]))
+        s = {"verb": "merge-fields", "mode": mode, "accs": accs, "k": rng.random() < 0.4, "interp": False, "o": rng.choice(["out", "ab", "x"]),
+             "names": {"f": rng.sample(MFKEYS, rng.randint(1, 4)), "r": rng.sample(["in_", "out_", "a_", "_x", "y"], rng.randint(1, 2)),
+                       "c": rng.sample(["in_", "out_", "a_", "b_"], rng.randint(1, 2))}[mode], "profile": "mf:" + prof}
+    elif kind == "histogram":
+        lo, hi, nb = rng.choice([(0, 10, 5), (0, 1, 4), (-8, 8, 16), (0, 40, 20), (-20, 20, 10), (0, 32, 4), (1, 3, 8), (-40, 41, 3)])
+        s = {"verb": "histogram", "fs": rng.sample(VKEYS, rng.randint(1, 3)), "lo": Fraction(lo), "hi": Fraction(hi), "nbins": nb,
+             "o": rng.choice(["", "", "h_"]), "profile": "nums"}
     elif kind in ("fill-down", "frequent", "fraction", "top"):
         out = rng.choice(["count", "count", "n"])
         if kind == "fill-down":
@@ -612,7 +838,6 @@ def gen_case(rng, tier):
             s = {"verb": "top", "fs": rng.sample(VKEYS, rng.randint(1, 2)), "gs": gs, "n": rng.choice([1, 1, 2, 3, 5]), "min": rng.random() < 0.4,
                  "out": rng.choice(["top_idx", "top_idx", "i"])}
         s["profile"] = profile
-        s["oracle_only"] = True
     else:
         profile = "text"
         out = rng.choice(["count", "count", "n", "x"])
@@ -630,7 +855,21 @@ def gen_case(rng, tier):
         else:
             s = {"verb": "count-similar", "gs": gs or ["a"], "out": out}
         s["profile"] = profile
+    profile = s["profile"]
+    if profile.startswith("mf:"):
+        recs = []
+        for _ in range(nrec):
+            r = [(kk, gen_value(rng, profile[3:])) for kk in MFKEYS + ["a", "k"] if rng.random() < 0.7] or [("k", "1")]
+            if rng.random() < 0.3:
+                rng.shuffle(r)
+            recs.append(r)
+        return s, recs
     recs = gen_records(rng, profile, nrec, gvals)
+    if s["verb"] == "step" and any(x.startswith("shift_lead") for x in s["steppers"]):
+        # look-ahead steppers: value fields present in every record (the newest-vs-centre dispatch of the code is then moot)
+        recs = [r + [(f, gen_value(rng, profile)) for f in s["fs"] if f not in dict(r)] for r in recs]
+    if s["verb"] in ("most-frequent", "least-frequent") and len(groups_of(recs, s["gs"])) > 12:
+        s["gs"] = s["gs"][:1]                    # sort.Slice is a stable insertion sort only up to 12 elements
     return s, recs
 
 
@@ -683,8 +922,8 @@ def dsl_cases(ctx, n):
         f = rng.choice(DSL_ACC + ["median", "percentile", "percentile", "percentiles", "percentiles_map", "sort_collection"])
         il = rng.random() < 0.4
         half = rng.randint(0, 200)
-        if f in ("percentile", "percentiles") and not il and rng.random() < 0.2:
-            half = rng.choice([-10, -1, 201, 300, 1000])       # outside 0..100: the non-interpolated form clamps
+        if f in ("percentile", "percentiles") and rng.random() < 0.2:
+            half = rng.choice([-10, -1, 201, 300, 1000])       # outside 0..100: both forms clamp to the extreme elements
         if f == "percentiles_map":
             half -= half % 2                                    # map key is string(p): keep p integral
         cases.append({"f": f, "xs": xs, "p": Fraction(half, 2), "il": il})
@@ -731,18 +970,13 @@ def check_dsl(ctx, terms, meta, oracle_bad):
         if name == "p":
             p = c["p"]
             accname = "p" + (str(p.numerator) if p.denominator == 1 else str(float(p)))
-        if c["f"] in ("percentile", "percentiles", "percentiles_map") and not (0 <= c["p"] <= 100):
-            # outside 0..100 the non-interpolated percentile is clamped to the extreme element
-            sv = sort_vals(c["xs"])
-            e = ("val", sv[0] if c["p"] < 0 else sv[-1])
-        else:
-            e = expect_acc(accname if name != "p" else "p%s" % (c["p"] if c["p"].denominator == 1 else float(c["p"])), c["xs"], c["il"])
-        s = {"verb": "dsl", "acc": accname if name != "p" else "p%s" % (c["p"] if c["p"].denominator == 1 else float(c["p"])), "xs": c["xs"], "interp": c["il"], "dsl": inp}
+        pname = "p%s" % (c["p"] if c["p"].denominator == 1 else float(c["p"]))
+        e = expect_acc(accname if name != "p" else pname, c["xs"], c["il"])
+        s = {"verb": "dsl", "acc": accname if name != "p" else pname, "xs": c["xs"], "interp": c["il"], "dsl": inp}
         if not matches(e, t):
             oracle_bad.append((s, [], [[("r", t)]], {"what": "dsl function value", "expected": [str(x) for x in e], "observed": t}))
-        if 0 <= c["p"] <= 100 or name != "p":
-            terms.append(f"({coq_spec(s)},\n [],\n {coq_obs([[('r', t)]])})")
-            meta.append((s, [], [[("r", t)]]))
+        terms.append(f"({coq_spec(s)},\n [],\n {coq_obs([[('r', t)]])})")
+        meta.append((s, [], [[("r", t)]]))
 
 
 def probe_known(ctx):
@@ -753,7 +987,7 @@ def probe_known(ctx):
     ctx.count(("probe", "pctl200"))
     ctx.cov.setdefault("probes", {})["interpolated_percentile_p200"] = cls
     if cls != "ok":
-        ctx.violation({"class": "percentile-interpolated-index-out-of-range", "how": "mlr -n put 'end{print percentiles([1,2,3,4,5],[200],{\"interpolate_linearly\":true})}'",
+        ctx.violation({"regression_of": "fix 444a9e97f (interpolated percentile outside 0..100 indexed past the end)", "how": "mlr -n put 'end{print percentiles([1,2,3,4,5],[200],{\"interpolate_linearly\":true})}'",
                        "input": "percentiles([1,2,3,4,5],[200],{\"interpolate_linearly\":true})", "observed": cls + ": " + err.decode("utf-8", "replace")[:300],
                        "expected": "the value clamped to the last element (5), as the non-interpolated form does; theorem C10_interpolated_percentile_never_out_of_range"})
     # 4. fraction: a value field first seen in a LATER record of an existing group writes into a nil map
@@ -764,7 +998,7 @@ def probe_known(ctx):
     d = oracle(s4, recs, rows) if cls == "ok" else {"what": cls, "stderr": err[:300]}
     ctx.cov["probes"]["fraction late field"] = "ok" if d is None else str(d)[:120]
     if d is not None:
-        ctx.violation({"class": "fraction-late-field-nil-map-panic", "args": mlr_args(s4), "input": dkvp(recs, ";", ":").decode(), "observed": rows if cls == "ok" else err,
+        ctx.violation({"regression_of": "fix e5f034233 (fraction: nil-map write for a field first seen in a later record of a group)", "args": mlr_args(s4), "input": dkvp(recs, ";", ":").decode(), "observed": rows if cls == "ok" else err,
                        "difference": d, "spec": s4, "expected": "z=2,z_fraction=0.4 / z=3,y=4,z_fraction=0.6,y_fraction=1"})
     # 3. the grouping key joins the group-by texts with ",": distinct text tuples collide
     recs = [[("a", "x,y"), ("b", "z"), ("v", "1")], [("a", "x"), ("b", "y,z"), ("v", "2")]]
@@ -777,6 +1011,16 @@ def probe_known(ctx):
         if d is not None:
             ctx.violation({"class": "group-key-comma-collision", "args": mlr_args(s), "input": dkvp(recs, ";", ":").decode(), "observed": rows if cls == "ok" else err,
                            "difference": d, "spec": s, "expected": "two groups (x,y | z) and (x | y,z): groups are formed by the exact texts of the group-by fields; theorem C10_group_key_exact_text_refuted"})
+    # 5. step -a shift_lead_n, n >= 2: a group with fewer than n records never reaches the window centre while draining
+    recs = [[("x", "1")]]
+    s5 = {"verb": "step", "steppers": ["shift_lead_2"], "fs": ["x"], "gs": []}
+    cls, rows, err = run_mlr(ctx, mlr_args(s5), recs)
+    ctx.count(("probe", "shift-lead-short-group"))
+    d = oracle(s5, recs, rows) if cls == "ok" else {"what": cls}
+    ctx.cov["probes"]["step shift_lead_2 on one record"] = "ok" if d is None else str(d)[:100]
+    if d is not None:
+        ctx.violation({"class": "step-shift-lead-short-group-drops-records", "args": mlr_args(s5), "input": dkvp(recs, ";", ":").decode(),
+                       "observed": rows if cls == "ok" else err, "difference": d, "spec": s5, "expected": "x=1,x_shift_lead_2= (every record is emitted exactly once)"})
     # 2. an accumulator (or value field) named twice is fed every value twice
     recs = [[("x", "3")], [("x", "4")]]
     for args, fld, want in ((["stats1", "-a", "count,count", "-f", "x"], "x_count", "2"), (["stats1", "-a", "sum", "-f", "x,x"], "x_sum", "7")):
@@ -793,6 +1037,11 @@ def probe_known(ctx):
 def classify_witness(s, recs, diff, rows=None):
     """group-key-comma-collision only when the comma-joined key explains the WHOLE difference"""
     gs = s.get("gs") or []
+    if s["verb"] == "step" and isinstance(diff, dict) and diff.get("what") == "record count" and rows is not None:
+        lead = max([stepper_parts(a)[1] for a in s["steppers"] if stepper_parts(a)[0] == "shift_lead"] + [0])
+        sizes = [len(m) for _, m in groups_of(recs, gs)]
+        if lead > 1 and any(n < lead for n in sizes) and len(rows) < len(recs):
+            return "step-shift-lead-short-group-drops-records"
     if rows is not None and s["verb"] != "dsl" and any("," in dict(r).get(g, "") for r in recs for g in gs):
         JOINED_KEYS[0] = True
         try:
@@ -819,8 +1068,8 @@ def run(ctx):
                                "float arithmetic modelled exactly over Q and tied by correspondence within 1e-9 on inputs exactly representable in binary64"]
     ctx.assumptions = ["binary64 rounding is not modelled (theorems exact over Q)", "number grammar restricted to canonical ints and d+.d+ decimals in the model"]
     forbidden_gate(ctx, ["Base", "C10"])
-    ok, why = check_props(ctx, "C10/Props.v", ["C10/Harness.vo", "C10/Proofs.vo", "C10/ProofsMode.vo", "C10/ProofsMinMax.vo"])
-    ncases = 800 if ctx.tier == "quick" else 8000
+    ok, why = check_props(ctx, "C10/Props.v", ["C10/Harness.vo", "C10/Proofs.vo", "C10/ProofsMode.vo", "C10/ProofsMinMax.vo", "C10/ProofsFrac.vo", "C10/ProofsStep.vo"])
+    ncases = int(os.environ.get("C10_CASES", "0")) or (900 if ctx.tier == "quick" else 8000)
     terms, meta = [], []
     oracle_bad = []
     run_classes = set()
@@ -836,7 +1085,7 @@ def run(ctx):
                 # the same case end to end through the command line (reader, chain, writer): must give the same rows
                 cls2, rows2, err2 = run_mlr(ctx, args, recs)
                 n_cli += 1
-                if cls2 != "ok" or [r for r in rows if r] != rows2:
+                if cls2 != "ok" or rows != rows2:
                     ctx.violation({"broken": "command-line path differs from in-process verb", "args": args, "input": dkvp(recs, ";", ":").decode(),
                                    "observed_cli": rows2 if cls2 == "ok" else err2, "observed_inprocess": rows}, found_input=False)
                 via = "mlr"
@@ -847,8 +1096,6 @@ def run(ctx):
             ctx.count((args, recs))
             if cls != "ok":
                 wc = "verb-" + cls
-                if s["verb"] == "fraction" and cls == "panic" and "nil map" in err:
-                    wc = "fraction-late-field-nil-map-panic"
                 if wc not in run_classes:
                     run_classes.add(wc)
                     ctx.violation({"broken": "verb-run", "class": wc, "args": args, "input": dkvp(recs, ";", ":").decode(), "observed": err, "spec": s,
@@ -859,7 +1106,7 @@ def run(ctx):
                 d = {"what": "counts do not add up to the number of contributing records"}
             if d is not None:
                 oracle_bad.append((s, recs, rows, d))
-            if not s.get("oracle_only"):
+            if True:
                 terms.append(f"({coq_spec(s)},\n {coq_records(recs)},\n {coq_obs(rows)})")
                 meta.append((s, recs, rows))
             if i in (3, 50, 200, 400):
@@ -878,7 +1125,7 @@ def run(ctx):
             ctx.violation({"broken": why}, found_input=False)
         return
     with ctx.timed("coq_cases"):
-        bad, err = coq_eval_mismatches(ctx, "C10", "C10.Model C10.Verbs C10.Harness", "vspec * list record * list obsrec", "chk", terms, shard=len(terms) // 2 + 1)   # at most two coqc processes at a time
+        bad, err = coq_eval_mismatches(ctx, "C10", "C10.Model C10.Verbs C10.Verbs2 C10.Harness", "vspec * list record * list obsrec", "chk", terms, shard=len(terms) // 2 + 1)   # at most two coqc processes at a time
     ctx.cov["correspondence"] = {"cases": len(terms), "mismatches": len(bad)}
     if err:
         ctx.violation({"broken": "correspondence-evaluation", "detail": err[-2000:]}, found_input=False)
@@ -907,7 +1154,7 @@ def run(ctx):
 def replay(ctx, path):
     obj = json.loads(Path(path).read_text())
     s = obj.get("spec")
-    if obj.get("class") in ("percentile-interpolated-index-out-of-range", "stats1-duplicate-name-double-ingest", "fraction-late-field-nil-map-panic") or (s and s.get("verb") == "dsl"):
+    if obj.get("class") in ("stats1-duplicate-name-double-ingest",) or obj.get("regression_of") or (s and s.get("verb") == "dsl"):
         ctx.cov["probes"] = {}
         if s and s.get("verb") == "dsl":
             bad = []
